@@ -1,4 +1,4 @@
-import DadiVerif.Lemmas.Sweep
+import DadiVerif.Lemmas.Bridge
 /-!
 # C03 — integration is linear in (density, θ0) and independent of the reference size
 
@@ -96,6 +96,48 @@ theorem C03_integrate_scale_fn (grids : List (Array ℚ)) (fr nm : List Bool) (u
     integrateFn (sweepFn grids fr nm use eps) tf (fun τ => (Pf (τ / k)).scaled k) (k * T) fuel (k * t) (Pc.scaled k) φ
       = integrateFn (sweepFn grids fr nm use eps) tf Pf T fuel t Pc φ :=
   integrateFn_scaled _ tf Pf T k hk (fun P dt φ => sweepFn_scaled grids fr nm use eps P dt k hk φ) fuel t Pc φ
+
+/-! ### the arrays the driver actually computes
+The statements above are about the functional form `sweepFn`.  The executable model tabulates after every injection and every
+axis (`sweep`, `integrateConst (sweep …)`): these theorems show that every in-box entry of the tabulated result is the value of
+the functional form, for any dimension and any number of steps — so linearity and re-scaling invariance hold entry by entry for
+what `Driver/Integ.lean` runs and the correspondence harness compares with the implementation. -/
+
+/-- one full time step: tabulated = functional on every valid index -/
+theorem C03_tabulated_step (grids : List (Array ℚ)) (fr nm : List Bool) (use : Bool) (eps : ℕ → ND) (P : StepParams) (dt : ℚ) (T : ND)
+    (hfit : GridsFit grids T.shape) (idx : List ℕ) (hidx : InBox T.shape idx) :
+    (sweep grids fr nm use eps P dt T).get idx
+      = sweepFn grids fr nm use (fun k i j => (eps k).get (i.insertIdx k j)) P dt T.get idx :=
+  sweep_get grids fr nm use eps P dt T hfit idx hidx
+
+/-- whole integrations, constant and time-dependent parameters: tabulated = functional on every valid index -/
+theorem C03_tabulated_integrate (grids : List (Array ℚ)) (fr nm : List Bool) (use : Bool) (eps : ℕ → ND) (tf : ℚ)
+    (P : StepParams) (Pf : ℚ → StepParams) (Tend : ℚ) (fuel : ℕ) (t : ℚ) (T : ND) (hfit : GridsFit grids T.shape)
+    (idx : List ℕ) (hidx : InBox T.shape idx) :
+    (integrateConst (sweep grids fr nm use eps) tf P Tend fuel t T).get idx
+        = integrateConst (sweepFn grids fr nm use (fun k i j => (eps k).get (i.insertIdx k j))) tf P Tend fuel t T.get idx
+    ∧ (integrateFn (sweep grids fr nm use eps) tf Pf Tend fuel t P T).get idx
+        = integrateFn (sweepFn grids fr nm use (fun k i j => (eps k).get (i.insertIdx k j))) tf Pf Tend fuel t P T.get idx :=
+  ⟨integrateConst_get grids fr nm use eps tf P Tend T.shape hfit fuel t T T.get rfl (fun _ _ => rfl) idx hidx,
+   integrateFn_get grids fr nm use eps tf Pf Tend T.shape hfit fuel t P T T.get rfl (fun _ _ => rfl) idx hidx⟩
+
+/-- corollary: the tabulated integration itself is invariant under the reference-size re-scaling, entry by entry -/
+theorem C03_tabulated_integrate_scale (grids : List (Array ℚ)) (fr nm : List Bool) (use : Bool) (eps : ℕ → ND) (tf : ℚ)
+    (P : StepParams) (Tend k : ℚ) (hk : 0 < k) (fuel : ℕ) (t : ℚ) (T : ND) (hfit : GridsFit grids T.shape)
+    (idx : List ℕ) (hidx : InBox T.shape idx) :
+    (integrateConst (sweep grids fr nm use eps) tf (P.scaled k) (k * Tend) fuel (k * t) T).get idx
+      = (integrateConst (sweep grids fr nm use eps) tf P Tend fuel t T).get idx := by
+  rw [(C03_tabulated_integrate grids fr nm use eps tf (P.scaled k) (fun _ => P) (k * Tend) fuel (k * t) T hfit idx hidx).1,
+      (C03_tabulated_integrate grids fr nm use eps tf P (fun _ => P) Tend fuel t T hfit idx hidx).1,
+      C03_integrate_scale_const]
+  exact hk
+
+/-- non-vacuity: a 3×3 array on two 3-point grids fits, and [1,2] is a valid index -/
+example : GridsFit [#[0, 1/2, 1], #[0, 1/2, 1]] [3, 3] ∧ InBox [3, 3] [1, 2] := by
+  refine ⟨⟨rfl, ?_⟩, by simp [InBox]⟩
+  intro k hk
+  have : k = 0 ∨ k = 1 := by simp at hk; omega
+  rcases this with rfl | rfl <;> rfl
 
 /-- non-vacuity of the scaling hypotheses and a concrete instance of `C03_dt_homog` -/
 example : stepDt (1/1000) (StepParams.scaled ⟨[⟨2, -3, 1/5, [1]⟩, ⟨1/2, 0, 1/2, [3]⟩], 1, none⟩ 4)
